@@ -822,3 +822,52 @@ def huge_family():
     for name, bs in raws.items():
         fam.append(dict(name="huge:" + name, bytes=bs, toks=[tok("raw", bytes=bs)], outcome=Outcome(False, allowed={(E_MEMERROR, 0)}), truncs=[len(bs)], in_S=False, nheads=1, status="error", k=0))
     return fam
+
+
+def enum_large():
+    """Shapes with some size to them: growth past the third reallocation, counts/lengths that leave the immediate head form,
+    deep mixed nesting, maps with several pairs of different kinds. Few, but each exercises loops and growth steps that the
+    exhaustive small families cannot reach."""
+    T = tok
+    U8 = T("leaf", leaf="uint8")
+    I = lambda k: T("raw", bytes=[k % 24])                     # immediate unsigned k
+    asc = lambda n: T("raw", bytes=head(3, n, 1 if n >= 24 else 0) + [0x61 + (i % 26) for i in range(n)])   # text string, concrete ASCII payload
+    out = [
+        ("iarr_5_symbolic_elems", [T("iarr")] + [U8] * 5 + [T("break")]),
+        ("iarr_9_immediates", [T("iarr")] + [I(k) for k in range(9)] + [T("break")]),
+        ("iarr_17_immediates", [T("iarr")] + [I(k) for k in range(17)] + [T("break")]),
+        ("iarr_24_immediates", [T("iarr")] + [I(k) for k in range(24)] + [T("break")]),
+        ("iarr_256_immediates", [T("iarr")] + [I(k) for k in range(256)] + [T("break")]),
+        ("arr_256_count_in_2byte_form", [T("arr", n=256, form=2)] + [I(k) for k in range(256)]),
+        ("imap_24_pairs", [T("imap")] + [x for k in range(24) for x in (I(k), I(k + 1))] + [T("break")]),
+        ("nested_iarr_24_in_arr", [T("arr", n=2), I(7), T("iarr")] + [I(k) for k in range(24)] + [T("break")]),
+        ("imap_5_pairs", [T("imap")] + [x for k in range(5) for x in (I(k), U8)] + [T("break")]),
+        ("ibstr_5_chunks", [T("ibstr")] + [T("bstr", len=1)] * 5 + [T("break")]),
+        ("itstr_4_chunks", [T("itstr"), T("tstr", len=0), T("tstr", len=1), T("tstr", len=2), T("tstr", len=1), T("break")]),
+        ("arr_24_count_in_1byte_form", [T("arr", n=24, form=1)] + [I(k) for k in range(24)]),
+        ("arr_25", [T("arr", n=25, form=1)] + [I(k) for k in range(24)] + [U8]),
+        ("map_24_pairs", [T("map", n=24, form=1)] + [x for k in range(24) for x in (I(k), I(23 - k))]),
+        ("bstr_16_symbolic", [T("bstr", len=16)]), ("bstr_23_symbolic", [T("bstr", len=23)]), ("tstr_16_ascii", [asc(16)]), ("tstr_23_ascii", [asc(23)]),
+        ("arr_16_immediates", [T("arr", n=16)] + [I(k) for k in range(16)]), ("map_16_pairs_in_tag", [T("tag", form=2), T("map", n=16)] + [x for k in range(16) for x in (I(k), I(k))]),
+        ("bstr_24_symbolic", [T("bstr", len=24, form=1)]),
+        ("bstr_256_symbolic", [T("bstr", len=256, form=2)]),
+        ("tstr_24_ascii", [asc(24)]),
+        ("tstr_255_ascii", [asc(255)]),
+        ("depth6_mixed", [T("arr", n=1), T("imap"), T("tag", form=1), T("iarr"), T("map", n=1), U8, T("tag", form=0, imm=2), T("ibstr"), T("bstr", len=2), T("break"), T("break"),
+                          T("leaf", leaf="true"), T("break")]),
+        ("map_3_pairs_mixed_kinds", [T("map", n=3), U8, T("tstr", len=2), T("tstr", len=1), T("arr", n=2), T("leaf", leaf="f16"), T("leaf", leaf="null"), T("leaf", leaf="negint16"),
+                                    T("imap"), T("break")]),
+        ("iarr_of_containers", [T("iarr"), T("imap"), I(1), U8, I(2), T("tstr", len=1), I(3), T("leaf", leaf="f32"), T("break"), T("ibstr"), T("bstr", len=1), T("bstr", len=0), T("bstr", len=2),
+                                T("break"), T("arr", n=3), I(7), T("leaf", leaf="uint64"), T("arr", n=0), T("break")]),
+        ("chunk_24_in_chunked", [T("itstr"), asc(24), asc(1), T("break")]),
+    ]
+    fam = []
+    for name, s in out:
+        bs = seq_bytes(s)
+        o = ref_load(bs)
+        assert o.ok, (name, o)
+        n = len(bs)
+        # truncations at a handful of offsets (every ~1/6 of the input) rather than all
+        tr = sorted(set([n] + [max(1, (n * k) // 6) for k in range(1, 6)]))
+        fam.append(dict(name="large:" + name, bytes=bs, toks=s, outcome=o, truncs=tr, in_S=False, nheads=len(s), status="complete", k=0, large=True))
+    return fam
